@@ -1,6 +1,7 @@
 import KitProofs.Lemmas.NoPanicTime
 import KitProofs.Lemmas.NoPanicGlue
 import KitProofs.Lemmas.NoPanicNames
+import KitProofs.Lemmas.NoPanicPrefix
 import KitModel.NoPanicInventory
 /-!
 # C07 — no input can crash or hang a parser, decoder or crypto entry point
@@ -351,6 +352,68 @@ theorem normalize_never_panics (v : Decode.Val) : (Decode.normalize v).isPanic =
 example : Decode.normalize (.mapAny [(true, .list [.scalar, .mapStr [.scalar]]), (false, .scalar)]) = .err "error parsing config field" := by
   simp [Decode.normalize, Decode.normalizeKVs, Decode.normalizeAll, Outcome.bind]
 
+/-! ## config/prefix.go, retry/retry.go — configuration maps selected by a key prefix -/
+
+/-- `uncapitalize` never indexes the empty rune slice: `[]rune(str)` of a non-empty string has at
+least one element (an invalid first byte decodes to U+FFFD), and the empty string is returned by
+the `len(str) == 0` guard — for every byte string and every `unicode.ToLower`. -/
+theorem uncapitalize_never_panics (toLower : Prefix.Rune → Prefix.Rune) (str : Bytes) :
+    (Prefix.uncapitalize toLower str).isPanic = false :=
+  Prefix.uncapitalize_noPanic toLower str
+
+-- "Éa" → "éa" (two-byte first rune), "\xffA" → U+FFFD "A" re-encoded, "" → ""
+example : Prefix.uncapitalize (fun r => if r = 0xC9 then 0xE9 else r) [0xC3, 0x89, 0x61] = .ok [0xC3, 0xA9, 0x61] := by decide +kernel
+example : Prefix.uncapitalize id [0xFF, 0x41] = .ok [0xEF, 0xBF, 0xBD, 0x41] := by decide +kernel
+example : Prefix.uncapitalize id [] = .ok [] := by decide +kernel
+
+/-- The guard is what makes it so: the same body without `if len(str) == 0 { return str }` panics on
+the empty string and only there. -/
+theorem uncapitalize_guard_needed (toLower : Prefix.Rune → Prefix.Rune) (str : Bytes) :
+    (Prefix.uncapitalizeUnguarded toLower str).isPanic = true ↔ str = [] :=
+  Prefix.uncapitalizeUnguarded_panics_iff toLower str
+
+/-- `[]rune(str)`: every decoding step consumes between one byte and all remaining bytes, a
+non-empty string yields a non-empty slice, and `len(str)` steps always suffice. -/
+theorem runes_of_string (p0 : UInt8) (rest : Bytes) :
+    1 ≤ (Prefix.decodeRune p0 rest).2 ∧ (Prefix.decodeRune p0 rest).2 ≤ rest.length + 1 ∧
+    Prefix.runesOf (p0 :: rest) ≠ [] ∧
+    ∀ fuel, (p0 :: rest).length ≤ fuel → Prefix.runesFuel fuel (p0 :: rest) = Prefix.runesOf (p0 :: rest) :=
+  ⟨(Prefix.decodeRune_width p0 rest).1, (Prefix.decodeRune_width p0 rest).2,
+   Prefix.runesOf_ne_nil _ (List.cons_ne_nil _ _),
+   fun fuel h => Prefix.runesFuel_indep fuel _ _ h (Nat.le_refl _)⟩
+
+/-- `config.PrefixedBy` never panics: for a `map[string]interface{}`, a `map[string]string`, a
+`map[interface{}]interface{}` (string and non-string keys) or any other value, for every prefix —
+keys equal to the prefix, empty keys, the empty prefix, keys shorter than the prefix, invalid
+UTF-8 included. -/
+theorem prefixedBy_never_panics (toLower : Prefix.Rune → Prefix.Rune) (inp : Prefix.Input) (pre : Bytes) :
+    (Prefix.prefixedBy toLower inp pre).isPanic = false :=
+  Prefix.prefixedByWith_noPanic _ (Prefix.uncapitalize_noPanic toLower) inp pre
+
+-- {"backOff": …, "backOffMaxRetries": …, "other": …} by "backOff": the key equal to the prefix becomes ""
+example : Prefix.prefixedBy id (.mapStrStr [[98, 97, 99, 107, 79, 102, 102], [98, 97, 99, 107, 79, 102, 102, 77], [111]])
+    [98, 97, 99, 107, 79, 102, 102] = .ok [[], [77]] := by decide +kernel
+example : Prefix.prefixedBy id (.mapAnyAny [(none, .scalar)]) [] = .err "error parsing config field" := by decide +kernel
+
+/-- With the guard hoisted out of `uncapitalize` and not re-established in a branch of
+`PrefixedBy`, a `map[string]string` makes it panic exactly when one key is byte for byte the prefix
+(the class of change the round-4 seeded patch belongs to). -/
+theorem prefixedBy_unguarded_panics_iff_key_is_prefix (toLower : Prefix.Rune → Prefix.Rune) (ks : List Bytes) (pre : Bytes) :
+    (Prefix.prefixedByWith (Prefix.uncapitalizeUnguarded toLower) (.mapStrStr ks) pre).isPanic = true ↔ pre ∈ ks := by
+  unfold Prefix.prefixedByWith
+  simp only [Prefix.Input.toVal, Prefix.Input.keys, Decode.normalize, bind_ok]
+  exact Prefix.convertKeys_unguarded_panics_iff toLower pre ks
+
+/-- `retry.DecodeConfigWithPrefix` never panics, whatever `config.Decode` (which returns library
+panics as errors since fix 76c99a5) answers for the selected keys. -/
+theorem decodeConfigWithPrefix_never_panics (toLower : Prefix.Rune → Prefix.Rune) (decodeOk : List Bytes → Bool)
+    (inp : Prefix.Input) (pre : Bytes) : (Prefix.decodeConfigWithPrefix toLower decodeOk inp pre).isPanic = false := by
+  unfold Prefix.decodeConfigWithPrefix
+  refine bind_noPanic _ _ (prefixedBy_never_panics toLower inp pre) fun ks _ => ?_
+  exact ite_noPanic _ _ _ rfl rfl
+
+example : Prefix.decodeConfigWithPrefix id (fun ks => ks.length == 1) (.mapStrStr [[112], [113]]) [112] = .ok () := by decide +kernel
+
 /-! ## Layer 2: the panic-site inventory regenerated from /repo is discharged -/
 
 /-- Every panic-capable site factgen finds in the anchored files has a discharge whose side
@@ -370,7 +433,7 @@ theorem cited_theorems_exist :
     Inventory.citedHere.all (· ∈ thm_names% [parseISO8601_never_panics, parseKey_never_panics,
       parseSymmetric_never_panics, chainLoop_never_panics, hookChain_never_panics,
       decodeString_never_panics, normalize_never_panics, decodeCertificates_terminates,
-      exponentTooLarge_never_panics, quantity_arg_guarded]) = true := by decide +kernel
+      exponentTooLarge_never_panics, quantity_arg_guarded, uncapitalize_never_panics]) = true := by decide +kernel
 
 /-- The dapr/kit functions that panic on part of their domain (closed under "hands its own parameter
 on without a `switch` on it") are exactly the two table look-ups of package crypto and the six
@@ -384,6 +447,14 @@ theorem partial_functions_are_internal :
        "github.com/dapr/kit/crypto.encryptSymmetricAESGCM", "github.com/dapr/kit/crypto.encryptSymmetricAESKW",
        "github.com/dapr/kit/crypto.expectedKeySize", "github.com/dapr/kit/crypto.getSHAHash"] ∧
     Generated.C07.reachableFiles = ["crypto/crypto.go"] := by decide +kernel
+
+/-- The inventory is not limited to the files the property record anchors: every non-test source
+file of the packages that decode caller-supplied maps and strings (`config`, `metadata`, `utils`,
+`retry`) is inventoried — factgen exits non-zero on a file of these packages that is in none of the
+three lists. -/
+theorem covered_files_listed :
+    Generated.C07.coveredFiles = ["config/prefix.go", "metadata/properties.go", "retry/retry.go", "utils/env.go", "utils/strings.go"] ∧
+    Generated.C07.coveredDirs = ["config", "metadata", "utils", "retry"] := by decide +kernel
 
 /-- The two documented programmer-misuse panics that live in the anchored files (`NewParser` with
 two optionals, `cipher.AEAD` `Seal` with a wrong-size nonce) are in the table as such, and nothing
